@@ -3,7 +3,32 @@ use crate::common::*;
 use prototk::FieldNumber;
 use serde_json::{Value, json};
 use std::panic::{AssertUnwindSafe, catch_unwind};
-use tuple_key::{Direction, TupleKey, TupleKeyParser};
+use tuple_key::{Direction, TupleKey, TupleKeyParser, TypedTupleKey};
+use tuple_key_derive::TypedTupleKey;
+
+/// A derived typed key: ascending u64, descending string (marker written ABOVE the field number), descending i64
+/// (marker below), unit.  Universe tuples of exactly this shape are also encoded through the derive.
+#[derive(Clone, Debug, Eq, PartialEq, TypedTupleKey)]
+struct Derived {
+    #[tuple_key(1)]
+    a: u64,
+    /// a doc comment between the two attributes
+    #[reverse]
+    #[tuple_key(2)]
+    s: String,
+    #[tuple_key(3)]
+    #[reverse]
+    n: i64,
+    #[tuple_key(4)]
+    u: (),
+}
+
+fn derived_of(tuple: &[Value]) -> Option<Derived> {
+    let shape: Vec<(u64, &str, &str)> = tuple.iter().map(|e| (e["f"].as_u64().unwrap(), e["d"].as_str().unwrap(), e["v"]["t"].as_str().unwrap())).collect();
+    if shape != vec![(1, "F", "u64"), (2, "R", "string"), (3, "R", "i64"), (4, "F", "unit")] { return None; }
+    Some(Derived { a: bits_u64(&tuple[0]["v"]), s: String::from_utf8(bytes_of(&tuple[1]["v"]["bytes"])).ok()?, n: bits_u64(&tuple[2]["v"]) as i64, u: () })
+}
+
 
 fn bits_u64(v: &Value) -> u64 {
     v["bits"].as_array().unwrap().iter().fold(0u64, |a, b| (a << 1) | b.as_u64().unwrap())
@@ -158,6 +183,19 @@ pub fn main(args: &[String]) -> ! {
         let fmt1 = tuple.iter().all(|e| e["v"]["t"] != "bytes");
         let fmt2 = tuple.iter().all(|e| e["d"] == "F");
         let mut encs: Vec<(u8, Vec<u8>)> = vec![];
+        if let Some(d) = derived_of(tuple) {
+            rep.steps += 1;
+            let r = catch_unwind(AssertUnwindSafe(|| {
+                let tk: TupleKey = d.clone().into();
+                let back = <Derived as TryFrom<TupleKey>>::try_from(tk.clone()).ok();
+                (tk.as_bytes().to_vec(), back == Some(d.clone()))
+            }));
+            match r {
+                Ok((b, rt)) if b == want1 && rt => {}
+                Ok((b, rt)) => rep.violation(json!({"id": t["id"], "tuple": t["tuple"], "format": "derive", "expected": want1, "observed": b, "round_trip": rt})),
+                Err(_) => rep.violation(json!({"id": t["id"], "tuple": t["tuple"], "format": "derive", "panic": true})),
+            }
+        }
         if fmt1 {
             rep.steps += 1;
             match catch_unwind(AssertUnwindSafe(|| format1(tuple))) {
